@@ -184,6 +184,20 @@ def episode_cases(draw, tier="quick", with_env=True):
     case["seed0"] = draw(st.integers(0, 2 ** 31 - 1))
     if not with_env:
         case["markov"] = markov
+        return case
+    # further resets on the SAME environment: a default reset (the constructor's length, or the whole fold,
+    # must apply again whatever an earlier reset asked for) or a reset with another explicit length
+    follow = []
+    for _ in range(draw(st.sampled_from([2, 1, 3, 2, 1, 0]))):
+        fi = draw(st.sampled_from([fold, fold, draw(st.integers(0, nfolds - 1))])) if nfolds else 0
+        item = {"fold": fi}
+        if draw(st.sampled_from(["default", "length", "default"])) == "length":
+            flo, fhi = tuple(folds[fi]) if nfolds else (None, None)
+            Sf = len(fold_steps(slots, flo, fhi))
+            inside = st.integers(1, Sf - 1) if Sf >= 2 else st.integers(1, Sf + 1)
+            item["n"] = draw(st.one_of(inside, inside, st.integers(1, Sf + 1)))
+        follow.append(item)
+    case["follow"] = follow
     return case
 
 
@@ -295,85 +309,125 @@ def run_episodes(case):
     mode = case["mode"]
     span = case["span"]
     seed0 = case["seed0"]
-    fold_name = FOLD_NAMES[case["fold"]] if case["folds"] else "training-set"
     ctx = describe(case, grid, slots, lo, hi)
+    ctor_n = case["n"] if mode == "ctor" else case["ctor_n"] if mode == "reset+ctor" else None
 
     tr, etf = build_transmitter(case, grid)
     kwargs = dict(action_space=[etf], state=IState(), reward=RewardSimpleReturn(), transmitter=tr,
                   broker_fees=BrokerFees(), latency=0, sampling_span=span)
-    if mode == "ctor":
-        kwargs["episode_length"] = case["n"]
-    elif mode == "reset+ctor":
-        kwargs["episode_length"] = case["ctor_n"]
+    if ctor_n is not None:
+        kwargs["episode_length"] = ctor_n
     env = TradingEnv(**kwargs)
+    history = []   # what was asked of this environment so far, for the messages
 
-    def do_reset(seed, name=fold_name):
+    def fold_of(fi):
+        if not case["folds"]:
+            return "training-set", None, None, slots
+        flo, fhi = case["folds"][fi]
+        return FOLD_NAMES[fi], flo, fhi, fold_steps(slots, flo, fhi)
+
+    def single(fi, explicit_n, seed, step=True):
+        """One reset on the shared environment + the whole oracle for the episode it starts.
+        explicit_n decisions are asked through reset(episode_length=explicit_n + 1); None = default reset,
+        which must use the constructor's length or, without one, the whole fold.
+        Returns (ok, start timestep or None)."""
+        name, flo, fhi, fsteps = fold_of(fi)
+        n_eff = explicit_n if explicit_n is not None else ctor_n
+        how = "reset(%r, episode_length=%d)" % (name, explicit_n + 1) if explicit_n is not None else "reset(%r)" % name
+        if explicit_n is None:
+            how += " [constructor: %s decisions]" % ctor_n if ctor_n is not None else " [no configured length]"
+        label = "%s on fold [%s,%s]%s%s (%s)" % (how, flo, fhi, ", span %s" % span if span else "",
+                                               " after " + " -> ".join(history[-3:]) if history else "", ctx)
+        history.append(how.split(" [")[0])
+        if len(history) > 3:
+            del history[0]
+        Sf = len(fsteps)
+        if n_eff is None:
+            valid = fsteps[:1]
+            n_run = Sf - 1
+        else:
+            valid = fsteps[:Sf - n_eff] if n_eff <= Sf - 1 else []
+            n_run = n_eff
         np.random.seed(seed)
-        if mode in ("reset", "reset+ctor"):
-            return env.reset(name, episode_length=case["n"] + 1)
-        return env.reset(name)
+        try:
+            if explicit_n is not None:
+                env.reset(name, episode_length=explicit_n + 1)
+            else:
+                env.reset(name)
+        except Exception as exc:
+            if valid:
+                res.fail("%s: refused (%s: %s) although %d starts fit" % (label, type(exc).__name__, str(exc)[:80], len(valid)))
+                return False, None
+            return True, None
+        if not valid:
+            if n_eff is None:
+                res.fail("%s: reset into a fold without event-bearing timesteps returned normally, now=%s" % (label, env.now()))
+            else:
+                res.fail("%s: no start leaves room for %d decisions in %d timesteps, yet reset returned (now=%s)" % (label, n_eff, Sf, env.now()))
+            return False, None
+        slot, minute = env_now_slot(env, grid)
+        if slot not in valid:
+            res.fail("%s: seed %d starts at minute %s (slot %s); starts where the episode fits: %s" % (label, seed, minute, slot, valid))
+            return False, None
+        if step is True or step(slot):
+            i0 = fsteps.index(slot)
+            before = len(res.violations)
+            run_env_episode(env, res, grid, fsteps[i0:i0 + n_run + 1], flo, fhi, label + " seed %d" % seed)
+            if len(res.violations) > before:
+                return False, slot
+        return True, slot
+
+    def followups():
+        last_explicit = mode in ("reset", "reset+ctor")
+        for j, item in enumerate(case.get("follow", [])):
+            explicit = item.get("n")
+            res.tag("followup-length" if explicit is not None else "followup-default")
+            if explicit is None and last_explicit:
+                res.tag("reset(L)-then-default")
+                res.tag("reset(L)-then-default/ctor" if ctor_n is not None else "reset(L)-then-default/whole-fold")
+            if item["fold"] != case["fold"]:
+                res.tag("followup-other-fold")
+            ok, _ = single(item["fold"], explicit, seed0 + 1000 + j)
+            if not ok:
+                return
+            last_explicit = explicit is not None
 
     if mode == "none":
         classify(res, case, grid, slots, lo, hi, steps, S - 1 if S else None)
         # every fold of the dictionary in turn on the same environment, the selected one last
         order = [i for i in range(len(case["folds"])) if i != case["fold"]] + [case["fold"]] if case["folds"] else [0]
         for rep, fi in enumerate(order):
-            name = FOLD_NAMES[fi] if case["folds"] else "training-set"
-            flo, fhi = tuple(case["folds"][fi]) if case["folds"] else (None, None)
-            fsteps = fold_steps(slots, flo, fhi)
-            label = "fold %s [%s,%s] without length (%s)" % (name, flo, fhi, ctx)
-            np.random.seed(seed0 + rep)
-            if not fsteps:
-                try:
-                    env.reset(name)
-                except Exception:
-                    continue
-                res.fail("%s: reset into a fold without event-bearing timesteps returned normally, now=%s" % (label, env.now()))
-                continue
-            env.reset(name)
-            slot, minute = env_now_slot(env, grid)
-            if slot != fsteps[0]:
-                res.fail("%s: episode starts at minute %s (slot %s), first event-bearing timestep of the fold is %s" % (label, minute, slot, fsteps[0]))
-                continue
-            run_env_episode(env, res, grid, fsteps, flo, fhi, label)
+            ok, _ = single(fi, None, seed0 + rep)
+            if not ok:
+                return res
+        followups()
         return res
 
     n = case["n"]
+    explicit = n if mode in ("reset", "reset+ctor") else None
     valid = steps[:S - n] if n <= S - 1 else []
     classify(res, case, grid, slots, lo, hi, steps, n if valid else None)
-    label = "fold %s, %d decisions via %s%s (%s)" % (fold_name, n, mode, ", span %s" % span if span else "", ctx)
     if not valid:
         for i in range(3):
-            try:
-                do_reset(seed0 + i)
-            except Exception:
-                continue
-            res.fail("%s: no start leaves room for %d decisions in %d timesteps, yet reset returned (now=%s)" % (label, n, S, env.now()))
-            break
+            ok, _ = single(case["fold"], explicit, seed0 + i)
+            if not ok:
+                return res
+        followups()
         return res
 
     seen = set()
     stepped = set()
 
     def draw(seed, i):
-        try:
-            do_reset(seed)
-        except Exception as exc:
-            res.fail("%s: reset refused (%s: %s) although %d starts fit" % (label, type(exc).__name__, str(exc)[:80], len(valid)))
-            return False
-        slot, minute = env_now_slot(env, grid)
-        if slot not in valid:
-            res.fail("%s: seed %d starts at minute %s (slot %s); starts where the episode fits: %s" % (label, seed, minute, slot, valid))
-            return False
-        seen.add(slot)
-        if slot not in stepped or i < 3:
-            stepped.add(slot)
-            i0 = steps.index(slot)
-            before = len(res.violations)
-            run_env_episode(env, res, grid, steps[i0:i0 + n + 1], lo, hi, label + " seed %d" % seed)
-            if len(res.violations) > before:
+        def want_steps(slot):
+            if slot in stepped and i >= 3:
                 return False
-        return True
+            stepped.add(slot)
+            return True
+        ok, slot = single(case["fold"], explicit, seed, step=want_steps)
+        if ok:
+            seen.add(slot)
+        return ok
 
     for i in range(N_SEEDS):
         if not draw(seed0 + i, i):
@@ -387,9 +441,11 @@ def run_episodes(case):
                 return res
         missing = [s for s in valid if s not in seen]
         if missing:
-            res.fail("%s: starts %s never drawn in %d seeds (valid %s, drawn %s)" % (label, missing, N_SEEDS + N_EXTRA, valid, sorted(seen)))
+            res.fail("fold %s, %d decisions via %s (%s): starts %s never drawn in %d seeds (valid %s, drawn %s)" % (
+                fold_of(case["fold"])[0], n, mode, ctx, missing, N_SEEDS + N_EXTRA, valid, sorted(seen)))
     if len(valid) >= 2:
         res.tag("several-starts")
+    followups()
     return res
 
 
